@@ -1,0 +1,107 @@
+//go:build verif
+
+// Contracts for package builder, read as text by the verification-condition generator in /verif.
+// This file contains no code; with the build tag off it is not part of the build at all.
+//
+// The reflect.Value destination is described through the abstraction of
+// /verif/contracts/trusted/reflect.ct (kind width rvBits, stored value rvInt/rvUint/rvFloat).
+
+package builder
+
+//@ func PanicCannotConvert
+//@   noreturn
+//@ func PanicErrorConverting
+//@   noreturn
+
+// ---------------------------------------------------------------------------------------------
+// C19: numeric unmarshaling is exact or fails. On normal return the destination holds exactly
+// the mathematical value of the source; otherwise the function panics (reported as an error).
+
+//@ func setIntFromInt
+//@   modifies rvInt
+//@   may_panic
+//@   ensures rvInt[uint64(dst.ptr)] == value
+
+//@ func setIntFromUint
+//@   modifies rvInt
+//@   may_panic
+//@   ensures rvInt[uint64(dst.ptr)] >= 0 && uint64(rvInt[uint64(dst.ptr)]) == value
+
+//@ func setIntFromFloat
+//@   modifies rvInt
+//@   may_panic
+//@   ensures cv.FloatIsInt(value, rvInt[uint64(dst.ptr)])
+
+//@ func setUintFromUint
+//@   modifies rvUint
+//@   may_panic
+//@   ensures rvUint[uint64(dst.ptr)] == value
+
+//@ func setUintFromInt
+//@   modifies rvUint
+//@   may_panic
+//@   ensures value >= 0 && rvUint[uint64(dst.ptr)] == uint64(value)
+
+//@ func setUintFromFloat
+//@   modifies rvUint
+//@   may_panic
+//@   ensures cv.FloatIsUint(value, rvUint[uint64(dst.ptr)])
+
+//@ func setFloatFromInt
+//@   modifies rvFloat
+//@   may_panic
+//@   ensures cv.FloatIsInt(float64frombits(rvFloat[uint64(dst.ptr)]), value)
+
+//@ func setFloatFromUint
+//@   modifies rvFloat
+//@   may_panic
+//@   ensures cv.FloatIsUint(float64frombits(rvFloat[uint64(dst.ptr)]), value)
+
+//@ func setIntFromBigInt
+//@   requires value != nil && big.WF(value)
+//@   modifies rvInt
+//@   may_panic
+//@   ensures bigIs64[uint64(value)] && ite(bigNeg[uint64(value)], rvInt[uint64(dst.ptr)] == int64(0 - bigLo[uint64(value)]) && bigLo[uint64(value)] <= 0x8000000000000000, rvInt[uint64(dst.ptr)] == int64(bigLo[uint64(value)]) && bigLo[uint64(value)] < 0x8000000000000000)
+
+//@ func setUintFromBigInt
+//@   requires value != nil && big.WF(value)
+//@   modifies rvUint
+//@   may_panic
+//@   ensures bigIs64[uint64(value)] && !bigNeg[uint64(value)] && rvUint[uint64(dst.ptr)] == bigLo[uint64(value)]
+
+// ---------------------------------------------------------------------------------------------
+// The negative-integer event: what the builder is told denotes exactly -value.
+// builtKind/builtNeg/builtMag/builtIs64/builtFloat: the number handed to the current builder by the
+// last OnInt / OnFloat / OnBigInt (assumed descriptions of those three dispatchers).
+//@ ghost builtKind uint8
+//@ ghost builtNeg bool
+//@ ghost builtMag uint64
+//@ ghost builtIs64 bool
+//@ ghost builtFloat uint64
+
+//@ func (*BuilderEventReceiver).OnInt
+//@   trusted
+//@   modifies allheap, builtKind, builtNeg, builtMag, builtIs64
+//@   may_panic
+//@   ensures builtKind == 1 && builtIs64 && builtNeg == (value < 0) && builtMag == ite(value < 0, uint64(0 - value), uint64(value))
+//@ func (*BuilderEventReceiver).OnFloat
+//@   trusted
+//@   modifies allheap, builtKind, builtFloat
+//@   may_panic
+//@   ensures builtKind == 2 && builtFloat == bits(value)
+//@ func (*BuilderEventReceiver).OnBigInt
+//@   trusted
+//@   modifies allheap, builtKind, builtNeg, builtMag, builtIs64
+//@   may_panic
+//@   ensures builtKind == 3 && builtNeg == old(bigNeg[uint64(value)]) && builtMag == old(bigLo[uint64(value)]) && builtIs64 == old(bigIs64[uint64(value)])
+
+//@ func (*BuilderEventReceiver).OnNegativeInt
+//@   modifies allheap, builtKind, builtNeg, builtMag, builtIs64, builtFloat, bigNeg, bigIs64, bigLo, bigHi, alloc
+//@   may_panic
+//@   ensures value == 0 ==> builtKind == 2 && (builtFloat & 0x7fffffffffffffff) == 0
+//@   ensures value != 0 ==> (builtKind == 1 || builtKind == 3) && builtNeg && builtIs64 && builtMag == value
+
+//@ func (*BuilderEventReceiver).OnNan
+//@   modifies allheap, builtKind, builtFloat
+//@   may_panic
+//@   ensures builtKind == 2 && isNaN(float64frombits(builtFloat)) && ((builtFloat & 0x0008000000000000) == 0) == signaling
